@@ -40,7 +40,20 @@ pub struct ProcOut {
 }
 
 pub fn run_proc(exe: &str, args: &[&str], timeout_s: u64) -> ProcOut {
-    let mut child = Command::new(exe).args(args).stdin(Stdio::null()).stdout(Stdio::piped()).stderr(Stdio::null()).env_remove("RUST_LOG").spawn().expect("spawn");
+    run_proc_in(exe, args, timeout_s, None, None)
+}
+
+/// the same with a working directory and a RUST_LOG setting
+pub fn run_proc_in(exe: &str, args: &[&str], timeout_s: u64, cwd: Option<&str>, rust_log: Option<&str>) -> ProcOut {
+    let mut cmd = Command::new(exe);
+    cmd.args(args).stdin(Stdio::null()).stdout(Stdio::piped()).stderr(Stdio::null()).env_remove("RUST_LOG");
+    if let Some(d) = cwd {
+        cmd.current_dir(d);
+    }
+    if let Some(l) = rust_log {
+        cmd.env("RUST_LOG", l);
+    }
+    let mut child = cmd.spawn().expect("spawn");
     let mut so = child.stdout.take().unwrap();
     let h = std::thread::spawn(move || {
         let mut b = vec![];
@@ -163,6 +176,26 @@ pub fn run(ctx: &Ctx) -> i32 {
                     },
                 }
                 ctx.outcome(&hash64(&out.len()));
+                // the same directory named in other ways and with logging switched on: same single document
+                if !*extra {
+                    let (parent, name) = dir.rsplit_once('/').unwrap_or((".", dir.as_str()));
+                    let slash = format!("{}/", dir);
+                    let rel = format!("./{}", name);
+                    let variants: Vec<(&str, Vec<&str>, Option<&str>, Option<&str>)> = vec![
+                        ("trailing slash", vec![slash.as_str()], None, None),
+                        ("relative path", vec![rel.as_str()], Some(parent), None),
+                        ("RUST_LOG=trace", vec![dir.as_str()], None, Some("trace")),
+                    ];
+                    for (what, a, cwd, log) in variants {
+                        let q = run_proc_in(&bin("hulc2model"), &a, 120, cwd, log);
+                        ctx.eval(1);
+                        let o = String::from_utf8_lossy(&q.stdout).to_string();
+                        let same = q.code == Some(0) && Model::from_json(&o).ok().and_then(|m| m.as_json().ok()).as_deref() == l["json"].as_str();
+                        if !same {
+                            ctx.violation(&format!("hulc2model:variant:{}", what.split(' ').next().unwrap_or("")), &format!("{}: exit status {:?}, standard output ({} bytes) is not the one model document of the plain run", what, q.code, o.len()), json!({"tool": "hulc2model", "dir": dir, "variant": what}));
+                        }
+                    }
+                }
             }
             Some("err") | Some("panic") => {
                 if p.code == Some(0) {
@@ -249,7 +282,7 @@ pub fn run(ctx: &Ctx) -> i32 {
     }
     ctx.finish(
         "exploration",
-        "every project directory (12 shipped incl. VyP and GT system sections + synthetic directories written by the generator, with and without KyG/tbl files) x {default, --use-extra}: hulc2model is run as a process (stdout captured, exit status) and compared with hulc2model::collect_hulc_data computed in a monitored worker process (any byte on fd 1 during the library call is a violation); stdout must parse as a whole as one JSON document and load as a model whose re-serialisation is byte-identical to the library's; thor FILE -o OUT (OUT pre-existing and longer than any model) must leave exactly the library model JSON in the file and nothing on stdout; 5 kinds of non-project directory x 2 flag sets must give a non-zero exit status and no JSON; the stdout monitor also runs over grey-box value substitutions (XML values replaced by the string literals the parser source branches on; 2 projects quick / all thorough) and, in thorough, over every 'remove one block' mutant of every shipped .ctehexml; non-trivial = convertible project run or non-project run",
+        "every project directory (12 shipped incl. VyP and GT system sections + synthetic directories written by the generator, with and without KyG/tbl files) x {default, --use-extra}: hulc2model is run as a process (stdout captured, exit status) and compared with hulc2model::collect_hulc_data computed in a monitored worker process (any byte on fd 1 during the library call is a violation); stdout must parse as a whole as one JSON document and load as a model whose re-serialisation is byte-identical to the library's, also when the directory is named with a trailing slash or relative to the working directory, when RUST_LOG=trace is set, when the directory name holds blanks and non-ASCII letters, and when only one of the two result files exists; thor FILE -o OUT (OUT pre-existing and longer than any model) must leave exactly the library model JSON in the file and nothing on stdout; 5 kinds of non-project directory x 2 flag sets must give a non-zero exit status and no JSON; the stdout monitor also runs over grey-box value substitutions (XML values replaced by the string literals the parser source branches on; 2 projects quick / all thorough) and, in thorough, over every 'remove one block' mutant of every shipped .ctehexml; non-trivial = convertible project run or non-project run",
         true,
         json!({}),
     )
